@@ -1,5 +1,5 @@
 #!/bin/sh
-# regenerate go.mod from /repo/go.mod (copies its replace block) — run on every build
+# regenerate go.mod from /repo/go.mod (copies its require and replace blocks) — run on every build
 set -e
 cd "$(dirname "$0")"
 REPO=${REPO:-/repo}
@@ -9,6 +9,8 @@ REPO=${REPO:-/repo}
   echo "go 1.14"
   echo
   echo "require github.com/kubewharf/kubebrain v0.0.0"
+  echo
+  awk '/^require \(/{f=1} f{print} /^\)/{if(f){f=0}}' "$REPO/go.mod"
   echo
   echo "replace github.com/kubewharf/kubebrain => $REPO"
   echo
